@@ -58,6 +58,15 @@ fn render_group(kind: Kind, elems: &[Elem]) -> String {
     let mut s = String::new();
     match kind {
         Kind::UseList => {
+            // an attribute or doc comment on the whole import (carried by one of the elements;
+            // the smallest one is taken so that the rendering does not depend on their order)
+            if let Some(a) = elems.iter().filter_map(|e| e.attr.as_ref()).min() {
+                if a.starts_with("///") {
+                    s.push_str(&format!("{a}\n"));
+                } else {
+                    s.push_str(&format!("#[{a}]\n"));
+                }
+            }
             s.push_str("use m::{");
             for (i, e) in elems.iter().enumerate() {
                 if i > 0 {
@@ -244,7 +253,7 @@ impl Property for C11 {
         }
     }
     fn rule(&self) -> &'static str {
-        "generated groups of 2..6 reorderable declarations (use items, names of one use list, mod declarations, extern crates; identifiers with both cases, leading zeros, underscores, raw identifiers; optional attributes and attached comments), x style edition 2015/2024; oracle: every permutation (all up to 120, 200 sampled beyond) formats to the same text, the names/attributes/comments of the output are exactly the input's, nothing crosses a blank line / #[macro_use] / skipped item / item of another kind; enumerated: the pairwise order observed by formatting two-element groups over an 80-name universe is a consistent total preorder (reflexive, antisymmetric, transitive over all triples) for both orderings, and version_sort itself (hook) over all strings of length <=3 (thorough <=4) over {a,B,_,0,1,9} plus raw identifiers; non-trivial = at least 3 distinct elements and a permutation whose order differs from the sorted one"
+        "generated groups of 2..6 reorderable declarations (use items, names of one use list, mod declarations, extern crates; identifiers with both cases, leading zeros, underscores, raw identifiers; optional attributes and attached comments; for the names of one use list an optional attribute or doc comment on the import), x style edition 2015/2024; oracle: every permutation (all up to 120, 200 sampled beyond) formats to the same text, the names/attributes/comments of the output are exactly the input's, nothing crosses a blank line / #[macro_use] / skipped item (rustfmt::skip written directly or through cfg_attr, also with the old name) / item of another kind; enumerated: the pairwise order observed by formatting two-element groups over an 80-name universe is a consistent total preorder (reflexive, antisymmetric, transitive over all triples) for both orderings, and version_sort itself (hook) over all strings of length <=3 (thorough <=4) over {a,B,_,0,1,9} plus raw identifiers; non-trivial = at least 3 distinct elements and a permutation whose order differs from the sorted one"
     }
     fn assumptions(&self) -> Vec<&'static str> {
         vec!["groups never contain two imports that differ only in their alias (those are ranked equal by design and keep their relative order: checked separately by the alias-stability cases)"]
@@ -276,8 +285,14 @@ impl Property for C11 {
             let cand = (0..NAMES.len()).map(|d| NAMES[(start + d) % NAMES.len()]).find(|x| !names.iter().any(|y| y.trim_start_matches("r#") == x.trim_start_matches("r#"))).unwrap_or("a");
             names.push(cand.to_string());
         }
+        let list_attr_at = if kind == Kind::UseList && c.chance(1, 3) { Some(c.below(n)) } else { None };
         let mut elems: Vec<Value> = vec![];
         for (i, nm) in names.iter().enumerate() {
+            if list_attr_at == Some(i) {
+                let a = ["cfg(test)", "allow(unused)", "/// documented import", "cfg(feature = \"x\")"][c.below(4)];
+                elems.push(json!({"name": nm, "attr": a, "comment": null}));
+                continue;
+            }
             let attr = if kind != Kind::UseList && c.chance(1, 5) { Some(["cfg(test)", "allow(unused)", "cfg(feature = \"x\")"][c.below(3)]) } else { None };
             let comment = if kind != Kind::UseList && c.chance(1, 5) { Some(format!("note{i}")) } else { None };
             elems.push(json!({"name": nm, "attr": attr, "comment": comment}));
@@ -285,7 +300,7 @@ impl Property for C11 {
         match which {
             0 => json!({"kind": "perm", "decl": kind.name(), "style_edition": se, "elems": elems}),
             1 => {
-                let boundary = ["blank", "macro_use", "skip", "other-kind"][c.below(4)];
+                let boundary = ["blank", "macro_use", "skip", "other-kind", "skip-cfg_attr", "skip-cfg_attr-old"][c.below(6)];
                 let split = 1 + c.below(elems.len().max(2) - 1);
                 json!({"kind": "boundary", "decl": kind.name(), "style_edition": se, "elems": elems, "boundary": boundary, "split": split})
             }
@@ -541,11 +556,18 @@ impl Property for C11 {
                         Kind::Mods => ("#[macro_use]\nmod zzboundary;\n".into(), "zzboundary"),
                         _ => ("#[macro_use]\nextern crate zzboundary;\n".into(), "zzboundary"),
                     },
-                    "skip" => match kind {
-                        Kind::UseItems => ("#[rustfmt::skip]\nuse m::zzboundary;\n".into(), "zzboundary"),
-                        Kind::Mods => ("#[rustfmt::skip]\nmod zzboundary;\n".into(), "zzboundary"),
-                        _ => ("#[rustfmt::skip]\nextern crate zzboundary;\n".into(), "zzboundary"),
-                    },
+                    sk if sk.starts_with("skip") => {
+                        let attr = match sk {
+                            "skip-cfg_attr" => "#[cfg_attr(rustfmt, rustfmt::skip)]",
+                            "skip-cfg_attr-old" => "#[cfg_attr(rustfmt, rustfmt_skip)]",
+                            _ => "#[rustfmt::skip]",
+                        };
+                        match kind {
+                            Kind::UseItems => (format!("{attr}\nuse m::zzboundary;\n"), "zzboundary"),
+                            Kind::Mods => (format!("{attr}\nmod zzboundary;\n"), "zzboundary"),
+                            _ => (format!("{attr}\nextern crate zzboundary;\n"), "zzboundary"),
+                        }
+                    }
                     _ => ("fn zzboundary() {}\n".into(), "zzboundary"),
                 };
                 let src = format!("{a}{mid}{b}");
